@@ -63,6 +63,27 @@ def decoders(F):
     return roots, seen
 
 
+def zero_closure_kind(F, call_effect):
+    """For `iter.all(closure)` / `iter.any(closure)`: 'Eq' / 'Ne' when the closure's only comparison is with the constant 0."""
+    for a in call_effect[2]:
+        if isinstance(a, tuple) and a and a[0] == "closure":
+            g = F.fns.get(a[1])
+            if g is None:
+                return None
+            ops = set()
+            for b in g["blocks"]:
+                for s in b["stmts"]:
+                    if s["k"] == "assign" and s["rv"]["k"] == "bin" and s["rv"]["op"] in ("Eq", "Ne", "Lt", "Le", "Gt", "Ge"):
+                        zero = any("const" in o and o["const"].get("bits") == 0 for o in (s["rv"]["a"], s["rv"]["b"]))
+                        ops.add(s["rv"]["op"] if zero else "other")
+            if ops == {"Eq"}:
+                return "Eq"
+            if ops == {"Ne"} or ops == {"Gt"}:
+                return "Ne"
+            return None
+    return None
+
+
 def callees_of(f):
     out = set()
     for b in f["blocks"]:
@@ -233,8 +254,15 @@ def check(run, F, tier):
             # a zero test on the id bytes decided false on this path: Iterator::all(.., |b| b == 0) == false, or is_zero() == false
             okz = False
             for e in p.effects:
-                if e[0] == "call" and (e[1].endswith("Iterator>::all") or re.search(r"::is_(all_)?zero\w*$", e[1])):
+                if e[0] == "call" and re.search(r"::is_(all_)?zero\w*$", e[1]):
                     if conn.truth(p, e) is False:
+                        okz = True
+                if e[0] == "call" and (e[1].endswith("Iterator>::all") or e[1].endswith("Iterator>::any") or e[1].endswith("Iterator::all") or e[1].endswith("Iterator::any")):
+                    # all(|b| b == 0) decided false, or any(|b| b != 0) decided true: some identifier byte is non-zero
+                    kind = zero_closure_kind(F, e)
+                    is_all = e[1].endswith("all")
+                    t_ = conn.truth(p, e)
+                    if (is_all and kind == "Eq" and t_ is False) or (not is_all and kind == "Ne" and t_ is True):
                         okz = True
             if not okz:
                 zero_rejected = False
